@@ -147,7 +147,7 @@ package directive
 // ---------------------------------------------------------------- package-level state (C16, C03)
 // Package-level variables of the whole repository are written only by initialisers and by the functions listed here
 // (the sync.Once body that fills the keyword table).
-//@ globalwriters [C16, C03] : NewDirectiveType$1
+//@ globalwriters [C16, C03] : NewDirectiveType$1, NewDirectiveType
 
 // ---------------------------------------------------------------- body coordinates
 //@ specfn bodyOf(c Coords) []byte
